@@ -84,7 +84,7 @@ func runC05(p *Program, r *Report) {
 	var okStores, failStores, nilTree, nilTextTree []*ssa.Store
 	for _, st := range errStores {
 		if u, ok := st.Val.(*ssa.UnOp); ok {
-			if g, ok := u.X.(*ssa.Global); ok && g.Name() == "errEscapeOK" {
+			if g, ok := u.X.(*ssa.Global); ok && cname(g) == "errEscapeOK" {
 				okStores = append(okStores, st)
 				continue
 			}
